@@ -23,23 +23,54 @@ pub fn miri_cfg(id: &str, tier: Tier) -> Option<MiriCfg> {
         ("C05", Tier::Quick) | ("C09", Tier::Quick) => Some(MiriCfg {
             lane: "miri",
             procs: 16,
-            cases_per_proc: 2,
+            cases_per_proc: 6,
             extra_flags: threaded,
         }),
         ("C05", Tier::Thorough) | ("C09", Tier::Thorough) => Some(MiriCfg {
             lane: "miri",
             procs: 64,
-            cases_per_proc: 8,
+            cases_per_proc: 24,
             extra_flags: threaded,
         }),
         ("C06" | "C07" | "C10" | "C11" | "C12" | "C16" | "C18", Tier::Thorough) => Some(MiriCfg {
             lane: "miri",
             procs: 16,
-            cases_per_proc: 60,
+            cases_per_proc: 120,
             extra_flags: "",
         }),
         _ => None,
     }
+}
+
+/// (interpreter path, rustc-style arguments without the -Zmiri flags, LD_LIBRARY_PATH) from the
+/// "[cargo-miri runner] running command: ..." line of `cargo miri run -v`
+fn parse_miri_command(stderr: &str) -> Option<(String, Vec<String>, String)> {
+    let line = stderr.lines().rev().find(|l| l.contains("running command:"))?;
+    let ld = {
+        let k = line.find("LD_LIBRARY_PATH=\"")? + "LD_LIBRARY_PATH=\"".len();
+        line[k..].split('"').next()?.to_string()
+    };
+    let start = line.find("/bin/miri\"")?;
+    let qstart = line[..start].rfind('"')?;
+    let mut toks: Vec<String> = vec![];
+    let mut rest = &line[qstart..];
+    while let Some(a) = rest.find('"') {
+        let after = &rest[a + 1..];
+        let b = after.find('"')?;
+        toks.push(after[..b].to_string());
+        rest = &after[b + 1..];
+    }
+    let miri = toks.first()?.clone();
+    let sep = toks.iter().position(|t| t == "--")?;
+    let rustc_args: Vec<String> = toks[1..sep]
+        .iter()
+        .filter(|t| !t.starts_with("-Zmiri"))
+        .cloned()
+        .collect();
+    if rustc_args.is_empty() {
+        return None;
+    }
+    Some((miri, rustc_args, ld))
 }
 
 fn harness_dir() -> std::path::PathBuf {
@@ -95,7 +126,7 @@ pub fn miri_lane<P: Prop>(tier: Tier, seed: u64, agg: &mut Aggregate) -> Option<
     // build once (the runs below then only interpret)
     let build = Command::new("cargo")
         .current_dir(&hd)
-        .args(["+nightly", "miri", "run", "--offline", "--target-dir", "target/miri", "--"])
+        .args(["+nightly", "miri", "run", "-v", "--offline", "--target-dir", "target/miri", "--"])
         .args(["inprocess", P::ID, "--lane", cfg.lane, "--cases", "0"])
         .env("MIRIFLAGS", "-Zmiri-disable-isolation")
         .env("CARGO_NET_OFFLINE", "true")
@@ -107,6 +138,11 @@ pub fn miri_lane<P: Prop>(tier: Tier, seed: u64, agg: &mut Aggregate) -> Option<
         Ok(c) => wait_with_timeout(c, 1800),
         Err(_) => None,
     };
+    // `cargo miri run -v` prints the interpreter invocation; the shards below call the interpreter
+    // directly with it (16 `cargo miri run` processes would queue on cargo's build-directory lock)
+    let direct = built.as_ref().and_then(|o| {
+        parse_miri_command(&String::from_utf8_lossy(&o.stderr))
+    });
     if !built.map(|o| o.status.success()).unwrap_or(false) {
         // the Miri lane is a secondary oracle: if the interpreter cannot be built / started here the
         // property is still decided by its native lanes; the evidence says that the lane did not run
@@ -216,18 +252,40 @@ pub fn miri_lane<P: Prop>(tier: Tier, seed: u64, agg: &mut Aggregate) -> Option<
                 seed.wrapping_mul(1000).wrapping_add(shard),
                 cfg.extra_flags
             );
-            let c = Command::new("cargo")
-                .current_dir(&hd)
-                .args(["+nightly", "miri", "run", "--offline", "--target-dir", "target/miri", "--"])
-                .args(["inprocess", P::ID, "--lane", cfg.lane, "--tier", tier.name()])
-                .args(["--seed", &seed.to_string(), "--shard", &shard.to_string()])
-                .args(["--nshards", &cfg.procs.to_string(), "--cases", &total.to_string()])
-                .env("MIRIFLAGS", flags)
-                .env("CARGO_NET_OFFLINE", "true")
-                .stdin(Stdio::null())
-                .stdout(Stdio::piped())
-                .stderr(Stdio::piped())
-                .spawn();
+            let prog_args: Vec<String> = [
+                "inprocess", P::ID, "--lane", cfg.lane, "--tier", tier.name(), "--seed",
+                &seed.to_string(), "--shard", &shard.to_string(), "--nshards",
+                &cfg.procs.to_string(), "--cases", &total.to_string(),
+            ]
+            .iter()
+            .map(|s| s.to_string())
+            .collect();
+            let c = if let Some((miri, rustc_args, ld)) = &direct {
+                Command::new(miri)
+                    .current_dir(&hd)
+                    .args(rustc_args)
+                    .args(flags.split_whitespace())
+                    .arg("--")
+                    .args(&prog_args)
+                    .env("LD_LIBRARY_PATH", ld)
+                    .env("MIRI_CWD", &hd)
+                    .env_remove("MIRI_BE_RUSTC")
+                    .stdin(Stdio::null())
+                    .stdout(Stdio::piped())
+                    .stderr(Stdio::piped())
+                    .spawn()
+            } else {
+                Command::new("cargo")
+                    .current_dir(&hd)
+                    .args(["+nightly", "miri", "run", "--offline", "--target-dir", "target/miri", "--"])
+                    .args(&prog_args)
+                    .env("MIRIFLAGS", &flags)
+                    .env("CARGO_NET_OFFLINE", "true")
+                    .stdin(Stdio::null())
+                    .stdout(Stdio::piped())
+                    .stderr(Stdio::piped())
+                    .spawn()
+            };
             if let Ok(c) = c {
                 children.push((shard, c));
             }
